@@ -6,7 +6,7 @@ PROP = {
     "technique": "bounded model checking (Kani/CBMC) of AmbientSlot over every serial order of initialisers and observers (real OnceLock)",
     "functions": ['E2-cfg (mir2smt/cfgabs.py): AmbientSlot::{init, get, is_enabled} operate on the OnceLock only through one set then (on Ok) one get resp. one get; SMT interleaving model of <= 3 initialisers and <= 3 observers over an atomic write-once cell (OnceLock contract trusted)',
                   "emit_core::runtime::{AmbientSlot::{new, init, get, is_enabled}, Runtime::{build, emit, map_*}, AmbientSync}, impl Emitter/Filter/Ctxt/Clock/Rng for the erased components"],
-    "bounds": "4 steps, each one of {observe (emit + flush + rng through slot.get()), initialise configuration 1, initialise configuration 2}",
+    "bounds": "Kani: init / losing init / is_enabled with a symbolic winner, and observers that flush / read rng and clock through slot.get() before and after (observers that EMIT through the erased runtime do not finish in 15 min: not registered); originally planned: each one of {observe (emit + flush + rng through slot.get()), initialise configuration 1, initialise configuration 2}",
     "outside": "racing threads (Kani executes one thread): mutual exclusion and publication are std::sync::OnceLock's documented contract and are trusted; "
                "the panicking non-try form in emit::setup",
     "stubs": ["five recording components per configuration"],
